@@ -4,6 +4,7 @@ import spec as SP
 import layout
 import effects
 import common
+import totality as T
 from q import res, is_param, is_param_path, field_path, strip_casts, show, alts, walk, expand
 from terms import get_resolver
 
@@ -324,13 +325,9 @@ def run(ctx):
             L = vb.cfg.loop_of(c.bb)
             exits_ok = L is not None and all(k in ('exhausted', 'err', 'unreachable') for _, _, k in q.loop_exit_kinds(vb, L)) and \
                 all(vb.cfg.dominates(c.bb, x) for x, _ in L['back_edges'])      # and no `continue` bypasses the lookup
-            # result -> ok_or_else -> ?
-            prop = False
-            for u in q.calls(vb, 'std::option::Option::ok_or_else'):
-                a0 = q.arg_terms(u)[0]
-                if a0[0] == 'call' and a0[3] == (vb.name, c.bb):
-                    fates = q.result_fates(vb, u.dest['l'])
-                    prop = bool(fates) and all(f[0] == 'try' for f in fates)
+            # a missing colour ends in Err on every iteration: `.ok_or_else(..)?`, `match .. { None => return Err(..) }`, `if x.is_none() ..`
+            req = T.option_required(vb, lambda a0, c=c: any(x[0] == 'call' and x[3] == (vb.name, c.bb) for x in alts(a0)))
+            prop = bool(req) and L is not None and all(any(vb.cfg.dominates(r_, x) for r_ in req) for x, _ in L['back_edges'])
             ctx.inst('P5', 'validator', whole and exits_ok and prop, 'validate_indexed_pixels: looks up %s for every element of the pixel '
                      'slice (%s), no early exit or skipped element (%s), missing colour -> Err (%s)' % (show(at[1])[:60], whole, exits_ok, prop), c.span,
                      key=vb.name + '|P5|scan')
